@@ -56,7 +56,7 @@ pub fn deliver(bytes: &[u8], d: &Delivery) -> Result<Delivered, String> {
             Ok(Delivered { map, chunks: 1, boundary_inside_line: false })
         }
         Delivery::FromPath => {
-            let dir = std::path::Path::new(VERIF_DIR).join("harness/target/tmp").join(format!("c08-{}", std::process::id()));
+            let dir = crate::engine::verif_dir().join("harness/target/tmp").join(format!("c08-{}", std::process::id()));
             std::fs::create_dir_all(&dir).map_err(|e| format!("tmp dir: {e}"))?;
             let p = dir.join(format!("{:?}-{:016x}.osu", std::thread::current().id(), hash64(bytes)).replace(['(', ')'], ""));
             std::fs::write(&p, bytes).map_err(|e| format!("tmp write: {e}"))?;
@@ -225,7 +225,7 @@ pub fn run(ctx: &mut Ctx) {
             }
         }
     });
-    let _ = std::fs::remove_dir_all(std::path::Path::new(VERIF_DIR).join("harness/target/tmp").join(format!("c08-{}", std::process::id())));
+    let _ = std::fs::remove_dir_all(crate::engine::verif_dir().join("harness/target/tmp").join(format!("c08-{}", std::process::id())));
 }
 
 fn replay_tape(tape: &[u8]) -> Result<Option<String>, Fail> {
